@@ -300,6 +300,10 @@ func vfGenProbe(rt *rapid.T, class string, br vfBridge, ent func(int) []byte, ho
 		if rapid.Bool().Draw(rt, "randomLenFree") {
 			l = rapid.IntRange(1, 20000).Draw(rt, "randomLenN")
 		}
+		if rapid.IntRange(0, 5).Draw(rt, "flood") == 0 {
+			// a flood: far more than any buffer or "reasonable" amount of junk
+			l = rapid.SampledFrom([]int{65536, 131072, 139264, 139265, 200000, 1 << 20}).Draw(rt, "floodLen")
+		}
 		return ent(l), 0, fmt.Sprintf("random(%d)", l)
 	case "truncated":
 		hs := mk(pub, hour)
@@ -400,7 +404,7 @@ func vfIntersect(a, b []int) []int {
 func TestVerifC03Probes(t *testing.T) {
 	vfSetup(t)
 	c := ev.For("C03")
-	c.Rule("probes: per case one generated bridge (seed), 2-5 probe connections of generated classes (empty, random bytes up to 20000, valid handshake truncated / extended / one bit flipped in representative, padding, mark or MAC, wrong hour +-2/3, wrong identity, byte-identical replay of an accepted handshake (whose genuine session has meanwhile carried a burst sized around the handshake's own length), low-order representatives with a valid MAC), each released in generated segments with the armed deadline optionally fired in between, ended by peer disconnect or by firing the virtual deadlines; the last connection goes to a second factory built from the same seed; oracle: accepted handshakes are remembered for at least the three hours they stay valid, zero bytes written, everything sent is consumed, close only after the last armed deadline fired (unless the peer left first), deadline armed before the first read, final deadline = accept + 30 s + d with one whole d in 0..59 common to all connections of the seed; non-trivial = any class other than 'empty'; fingerprint = class, parameters, plan")
+	c.Rule("probes: per case one generated bridge (seed), 2-5 probe connections of generated classes (empty, random bytes up to 20000 and floods of 64 KiB .. 1 MiB, valid handshake truncated / extended / one bit flipped in representative, padding, mark or MAC, wrong hour +-2/3, wrong identity, byte-identical replay of an accepted handshake (whose genuine session has meanwhile carried a burst sized around the handshake's own length), low-order representatives with a valid MAC), each released in generated segments with the armed deadline optionally fired in between, ended by peer disconnect or by firing the virtual deadlines; the last connection goes to a second factory built from the same seed; oracle: accepted handshakes are remembered for at least the three hours they stay valid, zero bytes written, everything sent is consumed, close only after the last armed deadline fired (unless the peer left first), deadline armed before the first read, final deadline = accept + 30 s + d with one whole d in 0..59 common to all connections of the seed; non-trivial = any class other than 'empty'; fingerprint = class, parameters, plan")
 	c.Assume("deadline values are judged as intervals around the server's own clock reading (a few ms wide); cases measured on a stalled machine (> 0.5 s between accept and first deadline call) are discarded and counted")
 	for _, cl := range vfProbeClasses {
 		c.Floor("probe-"+cl+"/probe", 0.03)
@@ -824,6 +828,77 @@ func TestVerifC04History(t *testing.T) {
 		c.Case(ev.Hash(strings.Join(os, ",")), hasReplayOfAccepted && hasOffset, cls, func() any { return map[string]any{"ops": os, "seed": ev.Hex(br.Seed)} })
 	})
 	_ = detrand.Used
+}
+
+// TestVerifC04NearCapacity: "at most once while fewer than 102400 handshakes
+// are being remembered".  Remembering ~100000 real handshakes takes too long for
+// every run, so the bridge's own replay filter is filled through its exported
+// API with synthetic entries (distinct 16-byte values, current time) between the
+// acceptance of a real handshake and its replay.
+func TestVerifC04NearCapacity(t *testing.T) {
+	vfSetup(t)
+	c := ev.For("C04")
+	c.Rule("near-capacity: per fill level N in {1000, 86399, 86400, 100000, 102398} one fresh server factory: a real handshake A is accepted, N synthetic values are inserted into the factory's replay filter through its exported TestAndSet (so that N+1 < 102400 handshakes are remembered), then a byte-identical replay of A must be refused like invalid input and a fresh handshake B must be accepted; non-trivial = N >= 86399; fingerprint = N")
+	for idx, n := range []int{1000, 86399, 86400, 100000, 102398} {
+		br := vfBridge{ID: refobfs4.NewIdentity(vfEnt(0xc04c0+uint64(idx))(52)), Seed: vfEnt(0xc04d0 + uint64(idx))(24)}
+		ent := vfEnt(0xc04e0 + uint64(idx))
+		sf, err := vfServerFactory(br)
+		if err != nil {
+			t.Fatalf("VIOL[c04-serverfactory]: %v", err)
+		}
+		osf, ok := sf.(*obfs4ServerFactory)
+		if !ok || osf.replayFilter == nil {
+			t.Fatalf("INFRA: server factory is %T", sf)
+		}
+		hour0 := vfHourNow()
+		hs, accepted, _, _, sc0, err := vfAcceptOne(sf, br, ent, 0)
+		if sc0 != nil {
+			defer sc0.n.Shutdown()
+		}
+		if err != nil || !accepted {
+			if vfHourNow() != hour0 {
+				t.Skip("hour changed")
+			}
+			t.Fatalf("VIOL[c04-fresh-rejected]: a fresh handshake was not accepted (err %v)", err)
+		}
+		for i := 0; i < n; i++ {
+			v := detrand.Bytes(0xc04f000000000+uint64(idx)<<32+uint64(i), 16)
+			if osf.replayFilter.TestAndSet(time.Now(), v) {
+				t.Fatalf("INFRA: synthetic value %d reported as seen", i)
+			}
+		}
+		// replay of A
+		sc, err := vfOpenServerConn(sf)
+		if sc != nil {
+			defer sc.n.Shutdown()
+		}
+		if err != nil {
+			t.Fatalf("VIOL[c04-wedge]: %v", err)
+		}
+		sc.n.Inject(wire.A, hs)
+		sc.n.ReleaseAll(wire.A)
+		if err := sc.n.WaitQuiescent(wire.B); err != nil {
+			t.Fatalf("VIOL[c04-wedge]: %v", err)
+		}
+		if w := sc.n.Written(wire.B); w != 0 || (sc.ep.SetupDone() && sc.ep.SetupErr() == nil) {
+			if vfHourNow() != hour0 {
+				t.Skip("hour changed")
+			}
+			t.Fatalf("VIOL[c04-accepted]: replay of an accepted handshake was accepted again (server wrote %d bytes) although only %d handshakes (< 102400) are being remembered", w, n+1)
+		}
+		// a fresh one still works
+		_, accepted, _, _, sc2, err := vfAcceptOne(sf, br, ent, 0)
+		if sc2 != nil {
+			defer sc2.n.Shutdown()
+		}
+		if err != nil || !accepted {
+			if vfHourNow() != hour0 {
+				t.Skip("hour changed")
+			}
+			t.Fatalf("VIOL[c04-fresh-rejected]: a fresh handshake was not accepted with %d handshakes remembered (err %v)", n+2, err)
+		}
+		c.Case(ev.Hash("near-capacity", n), n >= 86399, []string{"near-capacity"}, func() any { return map[string]any{"unit": "near-capacity", "remembered": n + 1} })
+	}
 }
 
 // TestVerifC04HourRollover runs only when the real clock is about to reach a full
